@@ -42,6 +42,7 @@ def rightPart (on : SExpr) (ctx : List Value) (nL : Nat) (L R : List (List Value
 def fromSem (db : Db) : From → List Value → List (List Value)
   | .tbl i, _ => tableRows db i
   | .sub s w, ctx => (fromSem db s ctx).filter fun r => isTrue (ctx ++ r) w
+  | .proj s es, ctx => (fromSem db s ctx).filterMap fun r => evalAll (ctx ++ r) es
   | .join k l r on, ctx =>
     match k with
     | .lookup =>
